@@ -24,7 +24,7 @@ from sa.model import AnalysisError  # noqa: E402
 from sa.framework import Ctx, RULES  # noqa: E402
 from sa import props  # noqa: E402
 
-EVID = os.path.join(HERE, 'evidence')
+EVID = os.environ.get('VERIF_EVIDENCE_DIR') or os.path.join(HERE, 'evidence')
 KNOWN = os.path.join(HERE, 'known_findings.json')
 
 ASSUMPTIONS = [
@@ -57,6 +57,7 @@ def run_property(pid, tier, ctx=None, quiet=False):
     obligations = []
     per_rule = {}
     out = []
+    errors = []
     for entry in spec['rules']:
         rid, flt = (entry, None) if isinstance(entry, str) else entry
         fn = RULES.get(rid)
@@ -64,16 +65,24 @@ def run_property(pid, tier, ctx=None, quiet=False):
             raise AnalysisError('rule %s listed for %s is not implemented' % (rid, pid))
         cache = ctx.__dict__.setdefault('_rule_results', {})
         if rid not in cache:
-            cache[rid] = fn(ctx)
+            try:
+                cache[rid] = fn(ctx)
+            except AnalysisError as e:
+                cache[rid] = e
         obs = cache[rid]
+        if isinstance(obs, AnalysisError):
+            errors.append('rule %s: %s' % (rid, obs))
+            continue
         if len(obs) < fn.floor:
-            raise AnalysisError('rule %s produced %d obligations, below its floor %d: an anchor vanished or the '
-                                'matcher went blind' % (rid, len(obs), fn.floor))
+            errors.append('rule %s produced %d obligations, below its floor %d: an anchor vanished or the matcher '
+                          'went blind' % (rid, len(obs), fn.floor))
+            continue
         if flt is not None:
             rx = re.compile(flt)
             obs = [o for o in obs if rx.search(o.key)]
             if not obs:
-                raise AnalysisError('rule %s has no obligation matching %r for %s: an anchor vanished' % (rid, flt, pid))
+                errors.append('rule %s has no obligation matching %r for %s: an anchor vanished' % (rid, flt, pid))
+                continue
         per_rule[rid] = obs
         obligations.extend(obs)
     viol = []
@@ -149,12 +158,18 @@ def run_property(pid, tier, ctx=None, quiet=False):
         'wall_s': round(wall, 3),
         'violations': len(viol),
     }
+    if errors:
+        ev['coverage']['analysis_errors'] = errors
     os.makedirs(EVID, exist_ok=True)
     with open(os.path.join(EVID, pid + '.json'), 'w') as f:
         json.dump(ev, f, indent=1, default=str)
+    for e in errors:
+        out.append('ANALYSIS-ERROR property=%s %s' % (pid, e))
     if not quiet:
         print('\n'.join(out))
-    return 1 if viol else 0
+    if viol:
+        return 1
+    return 2 if errors else 0
 
 
 def safe(s):
@@ -201,11 +216,15 @@ def main(argv):
                 print('obligation %s:%s no longer exists on the current tree' % (want['rule'], want['key']))
             return 0
         if argv[0] == '--all':
-            rc = 0
+            rcs = []
             ctx = Ctx(tier=tier)
             for pid in sorted(props.PROPS):
-                rc = max(rc, run_property(pid, tier, ctx=ctx))
-            return rc
+                try:
+                    rcs.append(run_property(pid, tier, ctx=ctx))
+                except AnalysisError as e:
+                    print('ANALYSIS-ERROR property=%s %s' % (pid, e))
+                    rcs.append(2)
+            return 1 if 1 in rcs else (2 if 2 in rcs else 0)
         pid = argv[0]
         if pid not in props.PROPS:
             print('ANALYSIS-ERROR unknown property %s' % pid)
